@@ -431,7 +431,33 @@ func c16(ctx *run.Ctx) {
 	c16Typed[int](ctx, "int", func(stream, i int) int { return 1 + i*3 + stream*(i%2+1) + 7*stream })
 	c16Typed[float64](ctx, "float64", func(stream, i int) float64 { return 1.5 + float64(i)*1.25 + float64(stream)*0.125 })
 	c16Typed[int64](ctx, "int64neg", func(stream, i int) int64 { return int64((i+1)*(1-2*(i%2))) * int64(stream+1) })
+	// Floats with exact zeros (and sign changes) in every stream: quotients are
+	// +-Inf or NaN there, as IEEE division - and the slice model - give them.
+	c16Typed[float64](ctx, "float64zeros", func(stream, i int) float64 {
+		if (i+stream)%3 == 1 {
+			return 0
+		}
+		return float64(i+1) * (1.5 - float64((i+stream)%2)*3)
+	})
 	c16Misc(ctx)
+}
+
+func c16FieldA() []float64 {
+	type pt struct{ X, Y float64 }
+	c, err := helper.Field[float64, pt](helper.SliceToChan([]*pt{{10, 20}, {30, 40}}), "Y")
+	if err != nil {
+		return nil
+	}
+	return helper.ChanToSlice(c)
+}
+
+func c16FieldB() []float64 {
+	type pt struct{ Y, X float64 }
+	c, err := helper.Field[float64, pt](helper.SliceToChan([]*pt{{21, 11}, {41, 31}}), "Y")
+	if err != nil {
+		return nil
+	}
+	return helper.ChanToSlice(c)
 }
 
 // c16Misc covers the helpers that do not fit the uniform shape: Head (takes N
@@ -666,6 +692,16 @@ func c16Misc(ctx *run.Ctx) {
 			}
 			cc.Count("pipeline_runs", 1)
 			cc.Distinct(fmt.Sprintf("Field/%d", n))
+		}
+		// two different struct types that print the same name ("props.pt") and
+		// keep the requested field at different positions
+		if got, want := c16FieldA(), []float64{20, 40}; !eqSlice(got, want) {
+			cc.Viol("", fmt.Sprintf("helper.Field(Y) on struct{X,Y} = %v, want %v", got, want), nil)
+			return
+		}
+		if got, want := c16FieldB(), []float64{21, 41}; !eqSlice(got, want) {
+			cc.Viol("", fmt.Sprintf("helper.Field(Y) on a second struct type of the same name with the fields in the order {Y,X} = %v, want %v", got, want), nil)
+			return
 		}
 		if _, err := helper.Field[float64, asset.Snapshot](nil, "Nope"); err == nil {
 			cc.Viol("", "helper.Field with an unknown field name returned no error", nil)
